@@ -359,3 +359,11 @@ def minimize(case, fails):
 
 def sample(case, res):
     return {'lists': case['lists'], 'ops': res['summary'].get('ops', [])[:12]}
+
+
+def vacuity(agg):
+    runs = agg['runs']
+    unmet = agg['counters'].get('precondition_unmet', 0)
+    if runs and unmet > 0.5 * runs:
+        return '%d of %d argument lists could not be built as specified' % (unmet, runs)
+    return None
